@@ -176,6 +176,9 @@ func (g *gen) chanType(name string, typs []types.Type) (types.Type, types.ChanDi
 	if !ok {
 		return nil, types.SendRecv, fmt.Errorf("%s, the argument, %s, is not of type chan of chan", name, typs[0])
 	}
+	if derive.IsSendOnlyChan(chanTyp) || derive.IsSendOnlyChan(chanOfChanTyp) {
+		return nil, types.SendRecv, fmt.Errorf("%s, the argument, %s, is or contains a send only channel, which cannot be received from", name, typs[0])
+	}
 	elemType := chanOfChanTyp.Elem()
 	return elemType, chanTyp.Dir(), nil
 }
@@ -190,6 +193,9 @@ func (g *gen) chanVariantTypes(name string, typs []types.Type) ([]types.Type, []
 		chanTyp, ok := typs[i].(*types.Chan)
 		if !ok {
 			return nil, nil, fmt.Errorf("%s, the argument, %s, is not of type chan", name, typs[0])
+		}
+		if derive.IsSendOnlyChan(chanTyp) {
+			return nil, nil, fmt.Errorf("%s, the argument, %s, is a send only channel, which cannot be received from", name, typs[i])
 		}
 		chanTyps[i] = chanTyp.Elem()
 		if i != 0 {
@@ -213,6 +219,9 @@ func (g *gen) sliceOfChanType(name string, typs []types.Type) (types.Type, types
 	sliceOfChanTyp, ok := sliceTyp.Elem().(*types.Chan)
 	if !ok {
 		return nil, types.SendRecv, fmt.Errorf("%s, the argument, %s, is not of type slice of chan", name, typs[0])
+	}
+	if derive.IsSendOnlyChan(sliceOfChanTyp) {
+		return nil, types.SendRecv, fmt.Errorf("%s, the argument, %s, is a slice of send only channels, which cannot be received from", name, typs[0])
 	}
 	elemType := sliceOfChanTyp.Elem()
 	return elemType, sliceOfChanTyp.Dir(), nil
@@ -339,10 +348,15 @@ func (g *gen) genChan(typs []types.Type) error {
 	if dir == types.RecvOnly {
 		dirStr = "<-"
 	}
-	typStr := g.TypeString(elemTyp)
+	typStr := derive.ChanElemString(elemTyp, g.TypeString(elemTyp))
 	p.P("")
 	p.P("// %s listens on all channels resulting from the input channel and sends all their results on the output channel.", name)
-	p.P("func %s(in %schan (<-chan %s)) <-chan %s {", name, dirStr, typStr, typStr)
+	innerDirStr := "<-"
+	if inner, ok := typs[0].(*types.Chan).Elem().(*types.Chan); ok && inner.Dir() == types.SendRecv {
+		// a chan chan T is not assignable to a chan (<-chan T)
+		innerDirStr = ""
+	}
+	p.P("func %s(in %schan (%schan %s)) <-chan %s {", name, dirStr, innerDirStr, typStr, typStr)
 	p.In()
 	p.P("out := make(chan %s)", typStr)
 	p.P("go func() {")
@@ -385,14 +399,14 @@ func (g *gen) genChanVariant(typs []types.Type) error {
 	dirstrs := make([]string, len(typs))
 	elemstrs := make([]string, len(typs))
 	pairs := make([]string, len(typs))
-	typStr := g.TypeString(elemTyps[0])
+	typStr := derive.ChanElemString(elemTyps[0], g.TypeString(elemTyps[0]))
 	csnil := make([]string, len(typs))
 	cs := make([]string, len(typs))
 	for i := range typs {
 		if dirs[i] == types.RecvOnly {
 			dirstrs[i] = "<-"
 		}
-		elemstrs[i] = g.TypeString(elemTyps[i])
+		elemstrs[i] = derive.ChanElemString(elemTyps[i], g.TypeString(elemTyps[i]))
 		cs[i] = "c" + strconv.Itoa(i)
 		pairs[i] = fmt.Sprintf("%s %schan %s", cs[i], dirstrs[i], elemstrs[i])
 		csnil[i] = fmt.Sprintf("%s != nil", cs[i])
@@ -441,7 +455,7 @@ func (g *gen) genSliceOfChan(typs []types.Type) error {
 	if err != nil {
 		return err
 	}
-	typStr := g.TypeString(elemTyp)
+	typStr := derive.ChanElemString(elemTyp, g.TypeString(elemTyp))
 	dirStr := ""
 	if dir == types.RecvOnly {
 		dirStr = "<-"
@@ -488,7 +502,7 @@ func (g *gen) genSlice(typs []types.Type) error {
 	if err != nil {
 		return err
 	}
-	typStr := g.TypeString(elemTyp)
+	typStr := derive.ChanElemString(elemTyp, g.TypeString(elemTyp))
 	p.P("")
 	p.P("// %s concatenates the list of lists into one list.", name)
 	p.P("func %s(listOfLists [][]%s) []%s {", name, typStr, typStr)
